@@ -23,7 +23,7 @@ from fractions import Fraction
 
 META = {'explanation': 'Complete enumeration of every table entry (decode: all codes; encode: all 65536 binary16 values x overflow '
                        'modes) against an exact-rational model of each format; mxint and scale are bounded.'}
-EXTRA_TASKS = ['tables_p4binary', 'tables_p3binary', 'tables_e5m2', 'tables_e4m3', 'tables_small', 'others', 'routes_across_modes', 'codec_routes_isolation', 'scale_divides']
+EXTRA_TASKS = ['tables_p4binary', 'tables_p3binary', 'tables_e5m2', 'tables_e4m3', 'tables_small', 'others', 'routes_across_modes', 'codec_routes_isolation', 'scale_divides', 'bit_numbering_and_previous_content']
 
 
 class Fmt:
@@ -572,3 +572,73 @@ def scale_divides(tier='quick', seed=0):
                          'function': 'Dtype(fmt, scale=s).build', 'bound': f'{len(fmts)} formats x {len(scales)} scales x every code value and midpoint', 'evaluations': evals,
                          'failures': fails[:3]}],
             'summary': f'{evals} builds, {len(fails)} failures'}
+
+
+def bit_numbering_and_previous_content(tier='quick', seed=0):
+    """what a code decodes to, and what a value encodes to, is a function of the bits and the value alone: the same with options.lsb0 on
+    (the interpretation of a *whole* bitstring does not depend on how its bits are numbered), and -- for property assignment on a
+    mutable bitstring -- the same whatever the object held before (these formats have one length: assignment replaces the content).
+    Bounded, native: every code of the 8-bit formats, 4352 codes of each bfloat spelling, 12 values x 5 previous contents."""
+    import math
+    import bitstring
+    from bitstring import Bits, BitArray, BitStream, Dtype
+    rng = random.Random(seed)
+    fails = []
+    evals = 0
+    eight = ['p3binary', 'p4binary', 'e5m2mxfp', 'e4m3mxfp', 'e3m2mxfp', 'e2m3mxfp', 'e2m1mxfp', 'e8m0mxfp', 'mxint']
+    sixteen = ['bfloat', 'bfloatbe', 'bfloatle', 'bfloatne']
+    same = lambda a, b: (isinstance(a, float) and isinstance(b, float) and math.isnan(a) and math.isnan(b)) or (a == b and str(a) == str(b))
+    saved = bitstring.options.lsb0
+    try:
+        for fmt in eight + sixteen:
+            n = Dtype(fmt).bitlength
+            codes = range(1 << n) if n <= 8 else sorted(set(list(range(256)) + [rng.randrange(1 << 16) for _ in range(4096)]))
+            for code in codes:
+                evals += 1
+                b = Bits(uint=code, length=n)
+                bitstring.options.lsb0 = False
+                v0 = getattr(b, fmt)
+                p0 = Dtype(fmt).parse(b)
+                bitstring.options.lsb0 = True
+                try:
+                    v1 = getattr(b, fmt)
+                    p1 = Dtype(fmt).parse(b)
+                    r1 = bitstring.ConstBitStream(b).read(fmt)
+                finally:
+                    bitstring.options.lsb0 = False
+                if not (same(v0, v1) and same(p0, p1) and same(v0, r1)):
+                    fails.append({'call': f'{fmt} code {code:#x}: msb0 {v0!r}, lsb0 property {v1!r} / parse {p1!r} / read {r1!r}',
+                                  'python': f"import bitstring\nb = bitstring.Bits(uint={code}, length={n})\nv0 = b.{fmt}\nbitstring.options.lsb0 = True\n"
+                                            f"try:\n    v1 = b.{fmt}\nfinally:\n    bitstring.options.lsb0 = False\nFAILS = repr(v0) != repr(v1)\n"})
+                    break
+            vals = [0.0, 1.0, -1.5, 0.1, 3.0, 448.0, 1e9, -1e9, 2.0 ** -20, 0.75, 6.0, -0.0]
+            for v in vals:
+                try:
+                    want = Dtype(fmt).build(v).bin
+                except ValueError:
+                    continue            # (e8m0 takes exact powers of two only)
+                for prev in ('', '0b1', '0xab', '0xabcd', '0xabcdef'):
+                    for cls in (BitArray, BitStream):
+                        for lsb0 in (False, True):
+                            evals += 1
+                            x = cls(prev)
+                            bitstring.options.lsb0 = lsb0
+                            try:
+                                setattr(x, fmt, v)
+                                got = x.bin
+                            except Exception as e:
+                                got = type(e).__name__
+                            finally:
+                                bitstring.options.lsb0 = False
+                            if got != want and len(fails) < 6:
+                                fails.append({'call': f'x = {cls.__name__}({prev!r}); x.{fmt} = {v!r}' + (' under lsb0' if lsb0 else ''), 'observed': got, 'expected': want,
+                                              'python': f"import bitstring\nx = bitstring.{cls.__name__}({prev!r})\nbitstring.options.lsb0 = {lsb0}\n"
+                                                        f"try:\n    x.{fmt} = {v!r}\n    got = x.bin\nexcept Exception as e:\n    got = type(e).__name__\n"
+                                                        f"finally:\n    bitstring.options.lsb0 = False\nFAILS = got != {want!r}\n"})
+    finally:
+        bitstring.options.lsb0 = saved
+    return {'id': 'C11.numbering', 'obligations': [], 'evaluations': evals,
+            'bounded': [{'id': 'C11/codecs/independent-of-bit-numbering-and-of-previous-content', 'qualname': 'bits.Bits._get*/_set* of the 8-bit, micro-scaling and bfloat formats',
+                         'shape': 'codes x modes, values x previous contents', 'function': 'property / Dtype.parse / read under lsb0; property assignment over earlier content',
+                         'bound': 'every 8-bit code, 4352 codes per bfloat spelling; 12 values x 5 previous contents x 2 classes x 2 modes', 'evaluations': evals, 'failures': fails[:3]}],
+            'summary': f'{evals} points, {len(fails)} failures'}
